@@ -61,6 +61,9 @@ def load_known() -> dict[str, Any]:
 
 
 def run_worker(mod, tier: str, seed: int, shard: int, nshards: int, out: Path) -> None:
+    import logging
+
+    logging.disable(logging.CRITICAL)  # the library logs warnings for odd but legal inputs; the monitors do not read the log
     t0 = time.time()
     cases = list(mod.gen_cases(tier, seed))
     res: dict[str, Any] = {
